@@ -45,7 +45,10 @@ class SfCfg:
             return Gr(xv)
         method = FD_DISPATCH[self.mode]
         absstep = self.eps if self.mode is None else None       # None -> absolute step eps; strings -> relative
-        return fd_term(method, xv, F(xv), self.lb, self.ub, self.rel_step, absstep)
+        fd = fd_term(method, xv, F(xv), self.lb, self.ub, self.rel_step, absstep)
+        # a variable with lb == ub cannot be perturbed (the difference quotient is 0/0): its derivative is reported as 0
+        fixed = uf("cmp_Eq", Vec, Vec, Vec)(self.lb, self.ub)
+        return uf("np.where", Vec, R, Vec, Vec)(fixed, z3.RealVal(0), fd)
 
 
 # ------------------------------------------------------------------------------------------------- library model
